@@ -57,6 +57,8 @@ impl WorkerGoals {
                 *requested = false;
                 self.current = Some(goal);
                 probe!(mmtk, goal_set, goal);
+                #[cfg(feature = "mmtk_verif")]
+                crate::verif::emit(crate::verif::EV_GOAL_START, goal as u64, 0, 0, 0);
                 return Some(goal);
             }
         }
@@ -71,6 +73,14 @@ impl WorkerGoals {
     /// Called when the current goal is completed.  This will clear the current goal.
     pub fn on_current_goal_completed(&mut self) {
         probe!(mmtk, goal_complete);
+        #[cfg(feature = "mmtk_verif")]
+        crate::verif::emit(
+            crate::verif::EV_GOAL_DONE,
+            self.current.map(|g| g as u64).unwrap_or(u64::MAX),
+            0,
+            0,
+            0,
+        );
         self.current = None
     }
 
